@@ -148,6 +148,7 @@ let parse_prog (tok : string) : op list =
       | ["e"; k; d] -> OEmitH (nat_of_int (int_of_string k), EAdd, z_of_decimal d)
       | ["S"; k; d] -> OEmitH (nat_of_int (int_of_string k), ESet, z_of_decimal d)
       | ["a"; t; d] -> OEmitT (tuple_of_token t, EAdd, z_of_decimal d)
+      | ["A"; t; d] -> OEmitT (tuple_of_token t, ESet, z_of_decimal d)
       | _ -> failwith "bad op") (String.split_on_char '/' tok)
 
 let measure_int c (h : handle) : int = int_of_z (measure c.c_kind h.h_val)
